@@ -325,8 +325,16 @@ func (t *T) Key() string {
 		if !n.ParentOK {
 			sb.WriteByte('!')
 		}
-		for _, k := range n.Keys {
-			fmt.Fprintf(&sb, " %d", k)
+		// Live keys enter the state key by equivalence class: the tree touches keys only through
+		// the comparator, so two states that differ in which representative of a class is stored
+		// have the same futures (the oracle compares keys by class too). Vacated slots are dumped
+		// raw, so retained garbage still makes a different state.
+		for i, k := range n.Keys {
+			if i < n.N {
+				fmt.Fprintf(&sb, " c%d", t.Cfg.Class(k))
+			} else {
+				fmt.Fprintf(&sb, " %d", k)
+			}
 		}
 		sb.WriteByte('|')
 		for _, v := range n.Vals {
